@@ -333,10 +333,16 @@ def check_config(ctx, F, tag, views=True):
                 else:
                     forms.append("match/other")
                     okform = False
+            # the match was judged: its Err arm carries the error to the return value.  What else reads the matched value inside
+            # the arms (the payloads, a drop) is part of that match, not another consumer
+            if not okform and "match(Err arm returns the error)" in forms and all(
+                    f_ in ("match(Err arm returns the error)", "match/other", "payload of a matched arm", "?", "return", "move") for f_ in forms):
+                okform = True
             if okform and forms and locals().get("wrapped"):
                 okform = None
             wrapped = False
-            ctx.ob("C14.R1.io-result-propagated", key + tag, where, (okform and bool(forms)) if okform is not None else None, "consumption-form",
+            # (read on every path, as established above, but through no statement the classifier knows: undecided, not wrong)
+            ctx.ob("C14.R1.io-result-propagated", key + tag, where, ((okform and True) if forms else (None if okform else False)) if okform is not None else None, "consumption-form",
                    "io::Result of %s consumed by: %s (allowed: ?, return, map_err, documented unwrap)" % (cname, sorted(set(forms))))
 
         # ---------- R3 break arms
